@@ -188,6 +188,24 @@ ADDED8 = {   # round 8
  "C18": "; long XML documents with their own encoding declaration at every buffer alignment",
  "C20": "; _node of flat-file records right after transforms of typed formats",
 }
+ADDED9 = {   # round 9
+ "C01": "; a fatal error that wraps a per-record failure",
+ "C02": "; an external property that is defined and empty",
+ "C06": "; CsvSkip.tla: legacy csv row indexes as physical line numbers (loop vs fold, per-record counting refuted), every case on the real reader",
+ "C08": "; empty attribute values and empty CDATA sections",
+ "C09": "; an empty read after every byte",
+ "C10": "; pool whose inputs are looked ahead to their end by a declaration that never completes",
+ "C11": "; documents in single-byte encodings named in their declaration",
+ "C12": "; racing acquisitions that are all fresh",
+ "C13": "; union xpaths in arrays",
+ "C15": "; outputs differ => checksums differ, over inputs that may or may not be one value",
+ "C17": "; Heap law in Trace_Retention (live heap at two points of a long stream)",
+ "C18": "; JSON documents ending at a buffer edge with trailing data",
+ "C19": "; fixed-offset and POSIX-style zone names",
+ "C20": "; a failing script as a computed xpath and then as a value",
+}
+for _p, _t in ADDED9.items():
+    CHECKS[_p]["technique"] += _t
 for _p, _t in ADDED8.items():
     CHECKS[_p]["technique"] += _t
 for _p, _t in ADDED7.items():
